@@ -1,4 +1,5 @@
 """C19 - distributed computation returns the serial result."""
+import os
 import random
 
 import numpy as np
@@ -215,6 +216,50 @@ GEN_CFGS = {"quick": ["a", "b", "c"], "thorough": ["a", "b", "c", "d"]}
 SIZES = {(2, (3,)): [25], (3, (3,)): [27], (2, (2, 2)): [15, 12], (3, (4,)): [35]}
 
 
+def _apalache_chunks(ctx):
+    """Unbounded design-level stage: Apalache (SMT) proves the chunk-partition invariant of spec/Apa_Chunks.tla for
+    EVERY N >= 1, max_parts >= 1 and chunk index (constants constrained by CInit only, one-state system); a
+    negative control (parts = max_parts, false for N = 2, max_parts = 3) must be refuted, otherwise the constant
+    initialiser would be contradictory and the proof vacuous.  Apalache missing / timing out is recorded, not
+    fatal: MC_Chunks has already decided N <= 64 with TLC."""
+    import shutil
+    import subprocess
+    import tempfile
+    import time
+    from vlib.core import Machinery
+    spec = os.path.join(os.path.dirname(os.path.abspath(__file__)), "..", "spec", "Apa_Chunks.tla")
+    if shutil.which("apalache-mc") is None:
+        ctx.stages.append({"stage": "DESIGN Apa_Chunks (Apalache)", "outcome": "skipped: apalache-mc not on PATH"})
+        return
+    work = tempfile.mkdtemp(prefix="apa_", dir=ctx.work)
+    text = open(spec).read()
+    out = {}
+    t0 = time.time()
+    for name, inv, body in (("proof", "Inv", text),
+                            ("control", "NegParts", text.replace("Inv == ", "NegParts == Parts = MP\nInv == ", 1))):
+        d = os.path.join(work, name)
+        os.makedirs(d)
+        with open(os.path.join(d, "Apa_Chunks.tla"), "w") as fh:
+            fh.write(body)
+        try:
+            p = subprocess.run(["apalache-mc", "check", "--cinit=CInit", "--inv=" + inv, "--length=0",
+                                "--out-dir=" + os.path.join(d, "o"), "Apa_Chunks.tla"], cwd=d, text=True,
+                               stdout=subprocess.PIPE, stderr=subprocess.STDOUT, timeout=300)
+            o = p.stdout
+            out[name] = "NoError" if "The outcome is: NoError" in o else "Error" if "The outcome is: Error" in o \
+                else "unknown:" + o[-300:]
+        except subprocess.TimeoutExpired:
+            out[name] = "timeout"
+    shutil.rmtree(work, ignore_errors=True)
+    if out["proof"] == "Error":
+        raise Machinery("Apa_Chunks: Apalache refutes the chunk-partition invariant (spec arithmetic is wrong)")
+    if out["proof"] == "NoError" and out["control"] != "Error":
+        raise Machinery("Apa_Chunks: negative control not refuted (%s) - the proof would be vacuous" % out["control"])
+    ctx.stages.append({"stage": "DESIGN Apa_Chunks (Apalache, SMT): chunks partition [0,N) for EVERY N >= 1, every "
+                                "max_parts >= 1, every chunk index; negative control parts = max_parts refuted",
+                       "outcome": out, "wall_s": round(time.time() - t0, 1)})
+
+
 def main(ctx):
     from vlib.core import Machinery
     # ---- design level: the protocol and the chunk arithmetic
@@ -230,6 +275,7 @@ def main(ctx):
         raise Machinery("MC_Chunks failed\n" + r.out[-2000:])
     ctx.stages.append({"stage": "DESIGN MC_Chunks: chunk arithmetic partitions [0,N) for N<=64, workers 2..N+2, "
                        "and for every max_parts", "evaluated": [t for t in r.tuples if t and t[0] == "MC_Chunks"]})
+    _apalache_chunks(ctx)
     # ---- GEN: every complete behaviour of the protocol with atomic worker steps
     cases = []
     k = 0
